@@ -185,6 +185,8 @@ def print_bdl(p, layout=None, want_doc=False):
                 a = [("CONSTRUCTION", q(consname))]
                 if w.get("loc"):
                     a.append(("LOCATION", w["loc"]))
+                    if "z" in w:
+                        a.append(("Z", w["z"]))                    # an offset in height on an element placed on an edge
                     if "tilt_written" in w:
                         a.append(("TILT", w["tilt_written"]))     # old LIDER writes the tilt next to the location
                 else:
